@@ -341,6 +341,8 @@ class Agent(dbus.service.Object):
 
             for blk in ctr.block_type(HopCountBlock):
                 blk.payload.count += 1
+                # force re-encoding of the block-type-specific data
+                blk.delfieldval('btsd')
 
             for blk in list(ctr.block_type(BundleAgeBlock._overload_fields[CanonicalBlock]['type_code'])):
                 ctr.remove_block(blk)
